@@ -259,8 +259,9 @@ def resolver_model(ctx):
         ctx.extra["resolver_model_states"] = r["distinct"]
         r = ctx.tlc("FoResolverMC", cfg("FoResolverMC_3.cfg", 3, False, False, 0, "{}", False), workers=core.NCPU, timeout=3000, heap_gb=12)
         ctx.extra["resolver_model_states_3eq"] = r["distinct"]
-        r = ctx.tlc("FoResolverMC", cfg("FoResolverMC_f.cfg", 0, False, False, 0, "{}", False, fld=4), workers=core.NCPU, timeout=3000, heap_gb=12)
-        ctx.extra["resolver_model_states_field_family_4"] = r["distinct"]
+        # (the field family with 4 statements contains the known finding fa-class-drops-concrete: FindingSpec below; 3 statements in every name order here)
+        r = ctx.tlc("FoResolverMC", cfg("FoResolverMC_f.cfg", 0, True, False, 0, "{}", False, fld=3), workers=core.NCPU, timeout=3000, heap_gb=12)
+        ctx.extra["resolver_model_states_field_family_3_all_orders"] = r["distinct"]
     else:
         r = ctx.tlc("FoResolverMC", cfg("FoResolverMC_run.cfg", 1, True, True, 2, "{}", True, fld=2), workers=core.NCPU, timeout=3000, heap_gb=12)
         r2 = ctx.tlc("FoResolverMC", cfg("FoResolverMC_2.cfg", 2, False, False, 0, "{}", False, fld=3), workers=core.NCPU, timeout=3000, heap_gb=12)
